@@ -4,7 +4,7 @@
    preserved by every operation (`step_sim`), for ALL operation sequences by induction (`run_sim`), under the
    decidable premises `ops_okb`:
      - after every operation the runs of one DAG have pairwise distinct request ids and pairwise distinct start
-       stamps at the granularity the ordering sees (seconds)                                   [hist_okb]
+       stamps (yyyymmdd.hh:mm:ss.mmm - since e6d6379 the ordering sees the milliseconds)        [hist_okb]
      - a path is never re-created (keys created by open / close / rename are new)             [op_okb, ghost `seen`]
      - rename (of a DAG to a different one) and retention are not applied to the DAG whose run is being recorded
      - recorded statuses have a positive size
@@ -50,7 +50,7 @@ Definition op_okb (h : sstate) (seen : list skey) (o : op) : bool :=
 
 (* runs of one DAG: pairwise distinct request ids, pairwise distinct start seconds *)
 Definition clash (a b : arun) : bool :=
-  String.eqb (a_dag a) (a_dag b) && (String.eqb (a_req a) (a_req b) || String.eqb (take 17 (a_stamp a)) (take 17 (a_stamp b))).
+  String.eqb (a_dag a) (a_dag b) && (String.eqb (a_req a) (a_req b) || String.eqb (a_stamp a) (a_stamp b)).
 Definition hist_okb (H : hist) : bool :=
   forallb (fun a => forallb (fun b => implb (clash a b) (Nat.eqb (a_id a) (a_id b))) (h_runs H)) (h_runs H).
 
@@ -148,7 +148,7 @@ Arguments L_key_unique {st}. Arguments L_id_unique {st}. Arguments run_in_L {st}
 Arguments run_unique {st}.
 
 Lemma hist_ok_prop H a b : hist_okb H = true -> NoDup (map a_id (h_runs H)) -> In a (h_runs H) -> In b (h_runs H) ->
-  a_dag a = a_dag b -> (a_req a = a_req b \/ take 17 (a_stamp a) = take 17 (a_stamp b)) -> a = b.
+  a_dag a = a_dag b -> (a_req a = a_req b \/ a_stamp a = a_stamp b) -> a = b.
 Proof.
   intros O N Ia Ib Ed C. unfold hist_okb in O. rewrite forallb_forall in O. specialize (O a Ia).
   rewrite forallb_forall in O. specialize (O b Ib).
@@ -496,14 +496,26 @@ Proof.
 Qed.
 
 Definition opt_list {A} (o : option A) : list A := match o with Some x => [x] | None => [] end.
-Lemma sload_all_sound s l : forall c, cache_sound c s ->
-  snd (sload_all c s l) = flat_map (fun e => opt_list (load_pure s (fst e))) l /\ cache_sound (fst (sload_all c s l)) s.
+Definition loads (s : sfs) (l : list sent) : list payload := flat_map (fun e => opt_list (load_pure s (fst e))) l.
+Lemma sload_first_sound s l : forall c, cache_sound c s ->
+  snd (sload_first c s l) = match loads s l with [] => LNoData | p :: _ => LOk p end /\ cache_sound (fst (sload_first c s l)) s.
 Proof.
-  induction l as [|e l IH]; intros c CS; simpl; auto.
+  unfold loads. induction l as [|e l IH]; intros c CS; simpl; auto.
   destruct (sload_latest_sound c s (fst e) CS) as [E CS'].
   destruct (sload_latest c s (fst e)) as [c' [p|]]; simpl in *.
-  - destruct (IH c' CS') as [E2 CS2]. destruct (sload_all c' s l) as [c'' ps]; simpl in *. rewrite <- E. simpl. split; [f_equal; exact E2 | exact CS2].
+  - rewrite <- E. simpl. auto.
   - rewrite <- E. simpl. apply IH; auto.
+Qed.
+Lemma sload_upto_sound s l : forall n c, cache_sound c s ->
+  snd (sload_upto c s l n) = firstn n (loads s l) /\ cache_sound (fst (sload_upto c s l n)) s.
+Proof.
+  unfold loads. induction l as [|e l IH]; intros n c CS; simpl. { rewrite firstn_nil. auto. }
+  destruct n as [|n']; simpl; auto.
+  destruct (sload_latest_sound c s (fst e) CS) as [E CS'].
+  destruct (sload_latest c s (fst e)) as [c' [p|]]; simpl in *.
+  - destruct (IH n' c' CS') as [E2 CS2]. destruct (sload_upto c' s l n') as [c'' ps]; simpl in *. rewrite <- E. simpl.
+    split; [f_equal; exact E2 | exact CS2].
+  - rewrite <- E. simpl. apply (IH (S n')); auto.
 Qed.
 Lemma load_pure_file s e : NoDup (keys s) -> In e (sfiles s) -> load_pure s (fst e) = parse (snd e).
 Proof. intros N I. unfold load_pure. rewrite (in_sget s (fst e) (snd e)); auto. destruct e; auto. Qed.
@@ -548,7 +560,7 @@ Proof.
   rewrite (filter_ext_in' (fun x : sent * arun => dagday d day (fst (fst x))) (fun x => rundagday d day (snd x))) by apply dagday_pair.
   rewrite <- filter_map_comm. apply Permutation_filter. apply (r_snd _ _ _ _ R).
 Qed.
-Lemma Lf_sec_inj x y : In x Lf -> In y Lf -> take 17 (a_stamp (snd x)) = take 17 (a_stamp (snd y)) -> x = y.
+Lemma Lf_sec_inj x y : In x Lf -> In y Lf -> a_stamp (snd x) = a_stamp (snd y) -> x = y.
 Proof.
   intros Ix Iy E. destruct (Lf_in x Ix) as [Lx Dx], (Lf_in y Iy) as [Ly Dy].
   pose proof (L_frun h H L R x Lx) as [Fx _]. pose proof (L_frun h H L R y Ly) as [Fy _].
@@ -564,7 +576,7 @@ Proof.
   rewrite (L_keys h H L R). apply (r_keys _ _ _ _ R).
 Qed.
 
-(* the listing of the directory, sorted by the 17-byte key, is the first projection of the sorted pairing *)
+(* the listing of the directory, sorted by the stamp the regexp extracts, is the first projection of the sorted pairing *)
 Lemma glob_sorted : sort_desc sts_of (sglob kname (sst h) d (PLatest day)) = map fst S.
 Proof.
   assert (PM : Permutation (map fst Lf) (sglob kname (sst h) d (PLatest day))).
@@ -578,15 +590,13 @@ Proof.
   intros x y Ix Iy. unfold sts_of.
   destruct (Lf_in x Ix) as [Lx _], (Lf_in y Iy) as [Ly _].
   pose proof (L_frun h H L R x Lx) as [_ [Fx _]]. pose proof (L_frun h H L R y Ly) as [_ [Fy _]]. rewrite Fx, Fy.
-  destruct (string_dec (take 17 (a_stamp (snd x))) (take 17 (a_stamp (snd y)))) as [E|N].
-  - assert (x = y) by (apply Lf_sec_inj; auto). subst. rewrite !sltb_irrefl. reflexivity.
-  - apply ltb_take; auto.
+  reflexivity.
 Qed.
 Lemma runs_sorted : newest_first (runs_of H d day) = map snd S.
 Proof.
   unfold newest_first, S. rewrite <- sort_desc_map. symmetry. apply sort_desc_perm_inv. { apply Lf_snd. }
   rewrite map_map. apply NoDup_map_of_inj. apply Lf_nodup.
-  intros x y Ix Iy E. apply Lf_sec_inj; auto. congruence.
+  intros x y Ix Iy E. apply Lf_sec_inj; auto.
 Qed.
 Lemma S_in x : In x S -> In x L.
 Proof. unfold S. intros I. eapply Permutation_in in I; [|apply sort_desc_perm]. apply Lf_in in I. apply I. Qed.
@@ -606,39 +616,77 @@ Proof.
 Qed.
 End Order.
 
+Lemma last_opt_cons {A} (x : A) l : exists y, last_opt (x :: l) = Some y.
+Proof.
+  revert x. induction l as [|z l IH]; intros x. { exists x. reflexivity. }
+  destruct (IH z) as [y Hy]. exists y. unfold last_opt in *. simpl in *. exact Hy.
+Qed.
+Definition stl (a : arun) : list payload := match last_opt (a_sts a) with Some p => [p] | None => [] end.
+Lemma stl_status a : has_status a = true -> exists p, last_opt (a_sts a) = Some p /\ stl a = [p].
+Proof. unfold has_status, stl. destruct (a_sts a) as [|x l]; [discriminate|]. intros _. destruct (last_opt_cons x l) as [y Hy]. rewrite Hy. eauto. Qed.
+Lemma stl_nostatus a : has_status a = false -> stl a = [].
+Proof. unfold has_status, stl. destruct (a_sts a); [reflexivity|discriminate]. Qed.
+Lemma flat_stl_filter l : flat_map stl l = flat_map stl (filter has_status l).
+Proof.
+  induction l as [|a l IH]; simpl; auto. destruct (has_status a) eqn:E; simpl; rewrite IH; auto. rewrite (stl_nostatus a E). reflexivity.
+Qed.
+Lemma firstn_flat_stl l n : (forall a, In a l -> has_status a = true) -> firstn n (flat_map stl l) = flat_map stl (firstn n l).
+Proof.
+  revert n. induction l as [|a l IH]; intros n Hs; simpl. { rewrite !firstn_nil. reflexivity. }
+  destruct (stl_status a (Hs a (or_introl eq_refl))) as [p [_ E]]. rewrite E. destruct n; simpl; auto.
+  rewrite E. simpl. f_equal. apply IH. intros; apply Hs; simpl; auto.
+Qed.
+
+(* what the sorted directory listing loads = the last statuses of the runs with a status, newest first *)
+Lemma loads_sorted st h H L d day : R2g st h H L -> hist_okb H = true ->
+  loads (sst h) (sort_desc sts_of (sglob kname (sst h) d (PLatest day)))
+  = flat_map stl (newest_first (filter has_status (runs_of H d day))).
+Proof.
+  intros R O. rewrite (glob_sorted st h H L R O d day).
+  assert (NF : newest_first (filter has_status (runs_of H d day)) = filter has_status (newest_first (runs_of H d day)))
+    by (unfold newest_first; symmetry; apply sort_desc_filter).
+  rewrite NF, (runs_sorted st h H L R O d day). rewrite <- flat_stl_filter.
+  unfold loads. rewrite !flat_map_concat_map, !map_map. f_equal. apply map_ext_in. intros x Ix.
+  rewrite (S_parse st h H L R d day x Ix). reflexivity.
+Qed.
+Lemma sfilter_latest_all l : sfilter_latest l (List.length l) = sort_desc sts_of l.
+Proof.
+  rewrite sfilter_latest_eq. apply firstn_all2. rewrite (Permutation_length (sort_desc_perm sts_of l)). auto.
+Qed.
+
 Theorem latest_refines st h H L c d day : R2g st h H L -> hist_okb H = true -> cache_sound c (sst h) ->
   snd (sq_latest kname c (sst h) d day) = sp_latest H d day /\ cache_sound (fst (sq_latest kname c (sst h) d day)) (sst h).
 Proof.
   intros R O CS. unfold sq_latest, slatest_of, sp_latest.
-  pose proof (glob_sorted st h H L R O d day) as GS. pose proof (runs_sorted st h H L R O d day) as RS.
-  pose proof (glob_nil st h H L R O d day) as GN.
+  pose proof (loads_sorted st h H L d day R O) as LS.
+  assert (SP : match flat_map stl (newest_first (filter has_status (runs_of H d day))) with [] => LNoData | p :: _ => LOk p end
+               = match newest_first (filter has_status (runs_of H d day)) with
+                 | [] => LNoData | a :: _ => match last_opt (a_sts a) with Some p => LOk p | None => LNoData end end).
+  { assert (HS : forall a, In a (newest_first (filter has_status (runs_of H d day))) -> has_status a = true).
+    { intros a Ia. eapply Permutation_in in Ia; [|apply sort_desc_perm]. apply filter_In in Ia. apply Ia. }
+    destruct (newest_first (filter has_status (runs_of H d day))) as [|a r]; simpl; auto.
+    destruct (stl_status a (HS a (or_introl eq_refl))) as [p [E1 E2]]. rewrite E2, E1. reflexivity. }
   destruct (sglob kname (sst h) d (PLatest day)) as [|e0 l0] eqn:G.
-  - rewrite RS. destruct GN as [GN _]. rewrite (GN eq_refl). simpl. auto.
-  - rewrite sfilter_latest_eq, GS, RS.
-    destruct (sort_desc (fun x : sent * arun => a_stamp (snd x)) (filter (fun x : sent * arun => dagday d day (fst (fst x))) L)) as [|x r] eqn:ES.
-    + exfalso. destruct GN as [_ GN]. discriminate (GN eq_refl).
-    + simpl. destruct (sload_latest_sound c (sst h) (fst (fst x)) CS) as [E CS'].
-      pose proof (S_parse st h H L R d day x) as SP. rewrite ES in SP. specialize (SP (or_introl eq_refl)).
-      destruct (sload_latest c (sst h) (fst (fst x))) as [c' o]; simpl in *. rewrite E, SP.
-      destruct (last_opt (a_sts (snd x))); auto.
+  - simpl. split; auto. rewrite <- SP, <- LS. reflexivity.
+  - rewrite sfilter_latest_all.
+    destruct (sload_first_sound (sst h) (sort_desc sts_of (e0 :: l0)) c CS) as [E CS']. split; auto.
+    rewrite E, LS. exact SP.
 Qed.
 
 Theorem recent_refines st h H L c d n : R2g st h H L -> hist_okb H = true -> cache_sound c (sst h) ->
   snd (sq_recent kname c (sst h) d n) = sp_recent H d n /\ cache_sound (fst (sq_recent kname c (sst h) d n)) (sst h).
 Proof.
   intros R O CS. unfold sq_recent, srecent_of, sp_recent.
-  assert (PE : forall k, in_patk PAll k = in_patk (PLatest None) k) by reflexivity.
   assert (GE : sglob kname (sst h) d PAll = sglob kname (sst h) d (PLatest None)) by reflexivity.
-  rewrite GE.
-  pose proof (glob_sorted st h H L R O d None) as GS. pose proof (runs_sorted st h H L R O d None) as RS.
-  pose proof (glob_nil st h H L R O d None) as GN.
+  rewrite GE. pose proof (loads_sorted st h H L d None R O) as LS.
+  assert (SP : firstn n (flat_map stl (newest_first (filter has_status (runs_of H d None))))
+               = flat_map stl (firstn n (newest_first (filter has_status (runs_of H d None))))).
+  { apply firstn_flat_stl. intros a Ia. eapply Permutation_in in Ia; [|apply sort_desc_perm]. apply filter_In in Ia. apply Ia. }
   destruct (sglob kname (sst h) d (PLatest None)) as [|e0 l0] eqn:G.
-  - rewrite RS. destruct GN as [GN _]. rewrite (GN eq_refl). simpl. rewrite firstn_nil. simpl. auto.
-  - rewrite sfilter_latest_eq, GS, RS. rewrite !firstn_map.
-    destruct (sload_all_sound (sst h) (map fst (firstn n (sort_desc (fun x : sent * arun => a_stamp (snd x))
-                (filter (fun x : sent * arun => dagday d None (fst (fst x))) L)))) c CS) as [E CS'].
-    split; auto. rewrite E. rewrite !flat_map_concat_map, !map_map. f_equal. apply map_ext_in. intros x Ix.
-    apply firstn_incl in Ix. rewrite (S_parse st h H L R d None x Ix). destruct (last_opt (a_sts (snd x))); reflexivity.
+  - simpl. split; auto. fold stl. rewrite <- SP, <- LS. simpl. rewrite firstn_nil. reflexivity.
+  - rewrite sfilter_latest_all.
+    destruct (sload_upto_sound (sst h) (sort_desc sts_of (e0 :: l0)) n c CS) as [E CS']. split; auto.
+    rewrite E, LS. exact SP.
 Qed.
 
 
